@@ -13,7 +13,7 @@ ANCHORS = [("fit.py", "IndentationFitter._fit"),
 MIN_EVALS = {"quick": 1500, "thorough": 30000}
 MIN_EVENTS = {"noise-free fits judged": 300, "noisy fits judged": 300}
 TIMEOUT = {"quick": 900, "thorough": 3500}
-N_CASES = {"quick": 170, "thorough": 3600}     # per shard
+N_CASES = {"quick": 170, "thorough": 15000}     # per shard
 RULE = ("case = (model, parameter vector in bounds, contact point, baseline, "
         "points/segment, sampling law, segment, weight_cp, minimiser, SNR, "
         "initial guess inside the basin); distinct by digest of the curve "
